@@ -27,9 +27,15 @@ func init() {
 }
 
 type termLeaf struct {
-	Acc bool `json:"acc"`
-	Bws bool `json:"bws"`
+	Acc  bool `json:"acc"`
+	Bws  bool `json:"bws"`
+	Fail bool `json:"fail"`
 }
+
+// termFailSink refuses every write (a broken pipe / full disk).
+type termFailSink struct{ zapcore.WriteSyncer }
+
+func (termFailSink) Write(p []byte) (int, error) { return 0, fmt.Errorf("sink broken") }
 type termSnap struct {
 	InSink bool `json:"inSink"`
 	InBuf  bool `json:"inBuf"`
@@ -47,7 +53,7 @@ type termBeh struct {
 }
 
 var termMutants = []map[string]string{
-	{"SyncRule": `"never"`}, {"AttachRule": `"willWrite"`}, {"OverrideRule": `"raw"`}, {"GrpcGuard": `"plain"`}, {"SugarGuard": `"plain"`},
+	{"SyncRule": `"never"`}, {"AttachRule": `"willWrite"`}, {"OverrideRule": `"raw"`}, {"GrpcGuard": `"plain"`}, {"SugarGuard": `"plain"`}, {"WriteLoop": `"break"`},
 }
 
 func checkC06(c *Ctx) {
@@ -170,6 +176,9 @@ func termBuild(b termBeh, mkSink func(i int) zapcore.WriteSyncer) *termWorld {
 		s := mkSink(i)
 		w.sinks = append(w.sinks, s)
 		var ws zapcore.WriteSyncer = s
+		if lf.Fail {
+			ws = termFailSink{s}
+		}
 		if lf.Bws {
 			bw := &zapcore.BufferedWriteSyncer{WS: s, Size: 4096, FlushInterval: time.Hour}
 			w.bws = append(w.bws, bw)
@@ -186,7 +195,14 @@ func termBuild(b termBeh, mkSink func(i int) zapcore.WriteSyncer) *termWorld {
 		w.core = zapcore.NewNopCore()
 	case "off", "on", "bws":
 		w.core = leaf(0)
-	case "tee-on-on", "tee-off-on", "tee-on-bws":
+	case "bws-stopped":
+		// shutdown path: the buffered sink has been used and stopped before the terminal call
+		w.core = leaf(0)
+		w.core.Write(zapcore.Entry{Level: zapcore.InfoLevel, Message: "earlier"}, nil)
+		if err := w.bws[0].Stop(); err != nil {
+			panic("HARNESS: Stop: " + err.Error())
+		}
+	case "tee-on-on", "tee-off-on", "tee-on-bws", "tee-fail-on", "tee-fail-bws":
 		w.core = zapcore.NewTee(leaf(0), leaf(1))
 	case "sampled-out":
 		w.core = zapcore.NewSamplerWithOptions(leaf(0), time.Hour, 0, 0)
@@ -306,7 +322,7 @@ func replayC06(c *Ctx, b termBeh, child bool) (finds []Finding) {
 		}
 	}
 	hook := &termHook{snap: snapshot}
-	lg := zap.New(w.core, termOptions(b, hook)...)
+	lg := zap.New(w.core, append(termOptions(b, hook), zap.ErrorOutput(zapcore.AddSync(&bytes.Buffer{})))...)
 	var recovered interface{}
 	returned := false
 	func() {
@@ -350,7 +366,7 @@ func replayC06(c *Ctx, b termBeh, child bool) (finds []Finding) {
 	}
 	if b.Ran != "none" {
 		for i, lf := range b.Leaves {
-			if !lf.Acc {
+			if !lf.Acc || lf.Fail {
 				continue
 			}
 			if i >= len(snaps) || !snaps[i].InSink {
@@ -428,7 +444,7 @@ func replayC06Child(c *Ctx, b termBeh, desc string) (finds []Finding) {
 	for i, lf := range b.Leaves {
 		data, _ := os.ReadFile(filepath.Join(dir, fmt.Sprintf("sink%d.log", i)))
 		has := strings.Contains(string(data), `final-message \"quoted\"`) && strings.HasSuffix(string(data), "\n")
-		if lf.Acc && !has {
+		if lf.Acc && !lf.Fail && !has {
 			add("C06/not-written-before-terminal", "%s: after the process ended, the file of accepting core %d does not contain the complete final line (content %q)", desc, i, string(data))
 		}
 		if !lf.Acc && has {
